@@ -350,6 +350,9 @@ class World:
         # n_events=None makes the TrialDataManager take N from the raw event array
         n_events = None if (case.get('implicit_N') and case['N'] == len(case['order'])) else case['N']
         self.tdm.initialize_trial(self.shg_mgr, self.pmm, self.events, n_events=n_events, evt_sel_method=sel)
+        if case.get('index_field'):
+            # sorting by the index field may reorder the given array in place (C05 / C07's subject)
+            self.events_snapshot = np.array(self.events['id']).tobytes()
 
     def build_ratio(self, case):
         from skyllh.core.pdfratio import SigOverBkgPDFRatio, SourceWeightedPDFRatio
@@ -438,8 +441,11 @@ def gen_tables(rng, K, n_all, nf, zero_ratio_frac, zero_bkg_frac, huge_frac):
         z = rng.choice([1.0, 1.0, 0.0, 2.5, 1e-3])
         B = []
         for i in range(n_all):
-            if rng.random() < zero_bkg_frac:
+            u_ = rng.random()
+            if u_ < zero_bkg_frac:
                 B.append(0.0)
+            elif u_ < zero_bkg_frac + 0.3:
+                B.append(loguniform(rng, 1e-12, 1e-3))       # tiny but positive background densities
             else:
                 B.append(loguniform(rng, 1e-3, 1e3))
         S = []
@@ -468,10 +474,13 @@ def gen_tables(rng, K, n_all, nf, zero_ratio_frac, zero_bkg_frac, huge_frac):
 
 
 def gen_case(ctx, rng, size=None, kind=None):
-    kind = kind or rng.choice(['single', 'single', 'product', 'product', 'stacked', 'stacked', 'stacked-product'])
+    kind = kind or rng.choice(['single', 'single', 'product', 'product', 'stacked', 'stacked', 'stacked-product',
+                               'plain-multi-source'])
     stacked = kind.startswith('stacked')
-    K = rng.choice([1, 2, 3]) if stacked else 1
-    nf = 1 if kind in ('single', 'stacked') else rng.choice([2, 2, 3])
+    # 'plain-multi-source': K > 1 without source weighting — evaluate then treats every (source,event) row as
+    # an event (N' = number of rows); faithful to the code, compared with the model's non-stacked branch
+    K = rng.choice([1, 2, 3]) if stacked else (rng.choice([2, 3]) if kind == 'plain-multi-source' else 1)
+    nf = 1 if kind in ('single', 'stacked', 'plain-multi-source') else rng.choice([2, 2, 3])
     if size is None:
         size = rng.choice([0, 1, 1, 2, 3, 5, 8, 13, 30, 60, 120])
         if stacked:
@@ -489,7 +498,7 @@ def gen_case(ctx, rng, size=None, kind=None):
         frac = rng.choice([1.0, 0.8, 0.5, 0.2, 0.0])
         selected = [i for i in range(n_all) if rng.random() < frac]
         ids = [i for i in order if i in set(selected)]
-        if stacked:
+        if stacked or K > 1:
             pairs = []
             for k in range(K):
                 for i in ids:
@@ -498,15 +507,17 @@ def gen_case(ctx, rng, size=None, kind=None):
         else:
             pairs = [[0, i] for i in ids]
     n_sel = n_all if selected is None else len(selected)
+    if K > 1 and not stacked:
+        n_sel = K * n_all if pairs is None else max(len(pairs), len(selected))     # rows count as events
     N = n_sel + rng.choice([0, 0, 1, 2, 10, 1000, 100000]) if rng.random() < 0.8 else max(n_all, 1) + rng.randint(0, 5)
     N = max(N, n_sel, 1)
-    implicit_N = n_all >= 1 and rng.random() < 0.25
+    implicit_N = n_all >= 1 and rng.random() < 0.25 and not (K > 1 and not stacked)
     if implicit_N:
         N = n_all
     a_k = [loguniform(rng, 1e-2, 1e2) for _ in range(K)]
     case = {'kind': kind, 'K': K, 'n_all': n_all, 'N': N, 'order': order, 'selected': selected, 'pairs': pairs,
             'stacked': stacked, 'a_k': a_k, 'factors': factors, 'malformed': None, 'ns': [],
-            'implicit_N': implicit_N}
+            'implicit_N': implicit_N, 'index_field': rng.random() < 0.2}
     if implicit_N:
         ctx.count('N-taken-from-raw-event-array')
     case['ns'] = gen_ns(rng, case)
@@ -608,7 +619,7 @@ def close(a, b, tol):
 def lean(case):
     """replayable copy of a case (JSON)"""
     return {k: case.get(k) for k in ('kind', 'K', 'n_all', 'N', 'order', 'selected', 'pairs', 'stacked', 'a_k',
-                                     'factors', 'ns', 'malformed', 'implicit_N')}
+                                     'factors', 'ns', 'malformed', 'implicit_N', 'index_field')}
 
 
 def run_impl(ctx, case, opa, jobs):
@@ -676,8 +687,9 @@ def run_impl(ctx, case, opa, jobs):
         if ns == 0 and not (v == 0.0):
             ctx.violation(SITE, 'nonzero-at-ns0', f'value at ns=0 is {v!r}', case=dict(lean(case), ns=[0.0]), impl=v,
                           model=0.0, predicate='value = 0 exactly at ns = 0')
+    plain_multi = case['K'] > 1 and not case['stacked']
     # ---- predicate 3: event order
-    if nsel >= 2:
+    if nsel >= 2 and not plain_multi:
         pc = permuted(case, ctx.rng)
         wp = World(pc)
         for ns, v in zip(case['ns'][1:4], vals[1:4]):
@@ -689,7 +701,7 @@ def run_impl(ctx, case, opa, jobs):
                               case=dict(lean(case), ns=[ns], permuted_order=pc['order'], permuted_pairs=pc['pairs']),
                               impl=[v, vp], predicate='value invariant under a permutation of the events')
     # ---- predicate 4: zero-ratio events removed by a selection, N kept
-    if case['selected'] is None and any(r == 0 for r in R) and 0 < opa < 1:
+    if case['selected'] is None and any(r == 0 for r in R) and 0 < opa < 1 and not plain_multi:
         zc, nrem = zero_removed(case)
         wz = World(zc)
         for frac in (0.3, 0.97 * (1 - opa), -0.01):
@@ -831,7 +843,8 @@ def gen_like(ctx, rng, case, size, implicit):
 
 def history_probes(ctx, rng, opa, cases, n, only_caching=None):
     SITE = 'ZeroSigH0SingleDatasetTCLLHRatio.evaluate'
-    pool = [c for c in cases if not c['malformed'] and 1 <= len(sel_ids(c)) <= 200]
+    pool = [c for c in cases if not c['malformed'] and 1 <= len(sel_ids(c)) <= 200
+            and not (c['K'] > 1 and not c['stacked'])]
     for idx, case in enumerate(pool[:n]):
         caching = only_caching if only_caching is not None else ('outer', 'inner', 'none')[idx % 3]
         cach = None if caching == 'none' else caching
@@ -929,6 +942,7 @@ def history_probes(ctx, rng, opa, cases, n, only_caching=None):
             for step, nxt in enumerate([same_shape_trial(case, rng), same_shape_trial(case, rng),
                                         gen_like(ctx, rng, case, rng.choice([1, 3, 8, 20]), idx % 2 == 0),
                                         gen_like(ctx, rng, case, rng.choice([2, 5, 13]), idx % 2 == 1), case]):
+                nxt['index_field'] = bool(case.get('index_field'))     # a property of the manager, not of the trial
                 wt.new_trial(nxt)
                 Nn, nsel = nxt['N'], len(sel_ids(nxt))
                 if (wt.tdm.n_events, wt.tdm.n_selected_events, wt.tdm.n_pure_bkg_events) != (Nn, nsel, Nn - nsel):
@@ -1193,7 +1207,7 @@ def replay(ctx, rp):
         ctx.notes.append('multi-dataset replay: re-running the multi-dataset stream with the recorded seed')
         return run_multi(ctx, ctx.rng, exe, opa, 25)
     case = {k: c.get(k) for k in ('kind', 'K', 'n_all', 'N', 'order', 'selected', 'pairs', 'stacked', 'a_k',
-                                  'factors', 'ns', 'malformed', 'implicit_N')}
+                                  'factors', 'ns', 'malformed', 'implicit_N', 'index_field')}
     jobs = []
     ctx.case(case)
     run_impl(ctx, case, opa, jobs)
